@@ -4,25 +4,33 @@
 
   * util/bitmap (Model/Ext4/Bitmap.lean): set/clear/isSet act on exactly one bit; FirstFree returns
     the least clear bit at or after `start`; FreeList's runs partition the clear bits.
-  * File.Read / File.Write over the flat extent list (Model/Ext4/FileIO.lean): with the repaired skip
-    test the read loop returns exactly drop/take of the mapped byte string and never panics, for every
-    contiguous extent list, block size, file size, offset and length; with the skip test as found
-    (`<`) both loops panic on a concrete witness (finding ext4-extent-skip-lt).
-  * allocation (Model/Ext4/Alloc.lean): the first-fit fast path only hands out blocks that were free,
-    inside one group, so the new extent is disjoint from every existing one.
+  * File.Read / File.Write over the flat extent list (Model/Ext4/FileIO.lean): with the repaired skip test the
+    read loop returns exactly drop/take of the mapped byte string and never panics, for every contiguous extent
+    list, block size, file size, offset and length (`readE_spec`), and zeros for holes in any sorted list
+    (`readE_sparse_spec`); the repaired write loop splices the buffer into the mapped byte string and touches no
+    other device byte (`writeE_spec`), the whole File.Write zero-fills a gap beyond EOF (`writeZ_spec`), and
+    Read after Write returns what was written (`write_then_read`, `writeZ_then_read`); with the code as found
+    (`<` skip test; loop exit on a single WriteAt) concrete inputs panic or fail (findings ext4-extent-skip-lt,
+    ext4-write-trailing-empty-writes).
+  * allocation (Model/Ext4/Alloc.lean, AllocSlow.lean): the whole policy of allocateExtents — fast path and slow
+    path, for every order of the unstable sort — only hands out blocks that were free, inside one group, pairwise
+    disjoint, exactly as many as asked for, and gives up only when too few are free (`alloc_spec`).
   * Directory.toBytes / parseDirEntriesLinear (Model/Ext4/DirPack.lean): every block's rec_len chain
     tiles the block, and parse (pack es) = es for names up to 247 bytes; for 248…255-byte names the
     decoder's uint8 arithmetic wraps (finding ext4-long-name-panic).
 
-  PARTIAL (stated in the manifest): extent-tree restructuring (extendExtentTree), path walking, inode
-  encoding, Remove and the htree directory format are not mirrored; the end-to-end clause of the
+  PARTIAL (stated in the manifest): extent-tree restructuring (extendExtentTree), writeDirectory's relocation,
+  path walking, inode encoding and the htree directory format are not mirrored; the end-to-end clause of the
   property is checked by the engine's reference-tree oracle on sampled histories only.
 -/
 import DiskfsModel.Proofs.Ext4Bitmap
 import DiskfsModel.Proofs.Ext4FileIO
 import DiskfsModel.Proofs.Ext4FileWrite
+import DiskfsModel.Proofs.Ext4FileSparse
 import DiskfsModel.Proofs.Ext4DirPack
+import DiskfsModel.Proofs.Ext4DirRewrite
 import DiskfsModel.Proofs.Ext4Alloc
+import DiskfsModel.Proofs.Ext4AllocSlow
 namespace Diskfs.Ext4.C04
 open Diskfs.Ext4
 
@@ -111,6 +119,35 @@ theorem readE_no_panic (dev : Dev) (bs : Nat) (es : List Extent) (size off n : N
   obtain ⟨r, hr, _⟩ := readE_spec dev bs es size off n hbs hc
   rw [hr]; exact fun h => by cases h
 
+/-- readE_sparse_spec: File.Read over an extent list WITH holes (fix ea015d2; images made by other tools have
+    them): for every device content, block size, sorted extent list, file size, offset and length the bytes
+    returned are the window of the denoted byte string — the extents' blocks, ZEROS for every hole between
+    extents and behind the last extent up to the file size — the offset advances by it, EOF is reported exactly
+    at the end, and there is no panic. `readE_spec` is the special case of a list without holes. -/
+theorem readE_sparse_spec (dev : Dev) (bs : Nat) (es : List Extent) (size off n : Nat)
+    (hbs : 0 < bs) (hs : Sorted 0 es) :
+    ∃ r, readE false dev bs es size off n = .ok r ∧
+      r.data = win (fileBytesS dev bs 0 es) off (min n (size - off)) ∧
+      r.off = off + r.data.length ∧
+      (r.eof = true ↔ size ≤ off + r.data.length) := by
+  unfold readE
+  by_cases hge : off ≥ size
+  · simp only [hge, if_true]
+    have : min n (size - off) = 0 := by omega
+    exact ⟨_, rfl, by rw [this, win_zero], by simp, by simp; omega⟩
+  · simp only [hge, if_false]
+    generalize hw : (if off + n > size then size - off else n) = want
+    have hwant : want = min n (size - off) := by rw [← hw]; split <;> omega
+    obtain ⟨r, hr, hdata, hroff⟩ := readLoop_sparse dev bs off want hbs es 0 off [] [] hs (by simp) (Nat.le_refl _)
+      (Or.inl ⟨rfl, rfl⟩) (by simp)
+    rw [hr]
+    have hd : r.data = win (fileBytesS dev bs 0 es) off (min n (size - off)) := by
+      rw [hdata, ← hwant]; simp
+    have hlen : r.data.length = want := by rw [hd, win_length, hwant]
+    refine ⟨_, rfl, hd, ?_, ?_⟩
+    · simp only [hroff, hlen]; simp
+    · simp only [hroff, hlen]; simp
+
 /-- the code as found: a 3000-byte file in two extents (blocks 0–1 and block 2), Read at offset 2500 panics -/
 theorem cex_ext4_extent_skip_read :
     ExtentsCover 1024 [⟨0, 10, 2⟩, ⟨2, 20, 1⟩] 3000 ∧
@@ -154,15 +191,8 @@ theorem writeE_spec (dev : Dev) (bs : Nat) (es : List Extent) (size off : Nat) (
       r.written = b.length ∧ r.off = off + b.length ∧ r.size = max size (off + b.length) ∧
       (∀ w ∈ r.ws, 0 ≤ w.1) ∧
       fileBytes (applyWrs dev (toWrs r.ws)) bs es = splice (fileBytes dev bs es) off b ∧
-      ∀ i, Outside bs es i → applyWrs dev (toWrs r.ws) i = dev i := by
-  have hceil := (ceil_le_iff (max size (off + b.length)) bs (blockCount es) hbs).2 (by omega)
-  rw [writeE_eq, if_neg (by omega)]
-  obtain ⟨ws', hr, hnn, hdev⟩ := writeLoop_spec bs off b hbs es 0 off 0 [] hc hd (by simp) (Nat.le_refl _)
-    (Or.inl ⟨rfl, rfl⟩) (Nat.zero_le _) (by simp; omega)
-  rw [hr]
-  obtain ⟨hF, hfr⟩ := hdev dev
-  simp only [List.nil_append, Nat.zero_mul, Nat.sub_zero, List.drop_zero] at hF
-  exact ⟨_, rfl, rfl, by simp, rfl, hnn, hF, hfr⟩
+      ∀ i, Outside bs es i → applyWrs dev (toWrs r.ws) i = dev i :=
+  writeE_ok dev bs es size off b hbs hc hd hsz hfit
 
 /-- write_then_read: after that Write, File.Read at any offset and length returns the window of the spliced byte
     string (clipped to the new size); in particular reading `len(b)` bytes at `off` returns exactly `b`. -/
@@ -185,6 +215,78 @@ theorem write_then_read (dev : Dev) (bs : Nat) (es : List Extent) (size off : Na
     rw [hdata, hF]
     exact splice_window _ off b w.size (by rw [hFl]; exact hfit) (by rw [hsize]; omega)
 
+/-- writeZ_spec: the repaired File.Write as a whole (gap zero fill + the loop). For every device content, block
+    size, contiguous and disk-disjoint extent list, size, offset and buffer that fit into the allocated blocks
+    it succeeds, and the byte string the extent list denotes afterwards is the old one with ZEROS from the old
+    end of file up to `off` (nothing when `off ≤ size`) and the buffer at `off`; every device byte outside the
+    file's extents is unchanged. -/
+theorem writeZ_spec (dev : Dev) (bs : Nat) (es : List Extent) (size off : Nat) (b : Bytes)
+    (hbs : 0 < bs) (hc : Contig 0 es) (hd : DiskDisjoint es)
+    (hsz : size ≤ blockCount es * bs) (hfit : off + b.length ≤ blockCount es * bs) :
+    ∃ r, writeZ true false true bs es size off b = .ok r ∧
+      r.written = b.length ∧ r.off = off + b.length ∧ r.size = max size (off + b.length) ∧
+      (∀ w ∈ r.ws, 0 ≤ w.1) ∧
+      fileBytes (applyWrs dev (toWrs r.ws)) bs es =
+        splice (splice (fileBytes dev bs es) size (zeros (off - size))) off b ∧
+      ∀ i, Outside bs es i → applyWrs dev (toWrs r.ws) i = dev i := by
+  by_cases hgap : off > size
+  · obtain ⟨ws0, hz, hnn0, hdev0⟩ := zeroFill_spec bs es off hbs hc hd (by omega) (off - size) size []
+      (by omega) (Nat.le_refl _)
+    obtain ⟨hF0, hfr0⟩ := hdev0 dev
+    obtain ⟨r, hr, hw, ho, hs, hnn, hF, hfr⟩ :=
+      writeE_ok (applyWrs dev (toWrs ws0)) bs es off off b hbs hc hd (by omega) hfit
+    simp only [writeZ, hgap, decide_true, Bool.and_self, if_true, hz, List.nil_append, hr]
+    refine ⟨_, rfl, hw, ho, by rw [hs]; omega, ?_, ?_, ?_⟩
+    · intro w hw'
+      rcases List.mem_append.1 hw' with h | h
+      · exact hnn0 w h
+      · exact hnn w h
+    · simp only
+      rw [applyWrs_toWrs_append, hF, hF0]
+    · intro i hi
+      simp only
+      rw [applyWrs_toWrs_append, hfr i hi, hfr0 i hi]
+  · obtain ⟨r, hr, hw, ho, hs, hnn, hF, hfr⟩ := writeE_ok dev bs es size off b hbs hc hd hsz hfit
+    have hz : off - size = 0 := by omega
+    simp only [writeZ, hgap, decide_false, Bool.and_false, Bool.false_eq_true, if_false, hz]
+    exact ⟨r, hr, hw, ho, hs, hnn, by rw [hF]; simp [zeros, splice_nil], hfr⟩
+
+/-- write_then_read for the repaired File.Write: whatever the blocks held, a Read of the gap returns zeros and a
+    Read at `off` returns the buffer (both are windows of the spliced byte string, which every Read returns). -/
+theorem writeZ_then_read (dev : Dev) (bs : Nat) (es : List Extent) (size off : Nat) (b : Bytes)
+    (hbs : 0 < bs) (hc : Contig 0 es) (hd : DiskDisjoint es)
+    (hsz : size ≤ blockCount es * bs) (hfit : off + b.length ≤ blockCount es * bs) :
+    ∃ w, writeZ true false true bs es size off b = .ok w ∧
+      (∀ off' n, ∃ r, readE false (applyWrs dev (toWrs w.ws)) bs es w.size off' n = .ok r ∧
+        r.data = ((((splice (splice (fileBytes dev bs es) size (zeros (off - size))) off b).take w.size).drop off').take n)) ∧
+      (∃ r, readE false (applyWrs dev (toWrs w.ws)) bs es w.size off b.length = .ok r ∧ r.data = b) ∧
+      (∃ r, readE false (applyWrs dev (toWrs w.ws)) bs es w.size size (off - size) = .ok r ∧
+        r.data = zeros (off - size)) := by
+  obtain ⟨w, hw, _, _, hsize, _, hF, _⟩ := writeZ_spec dev bs es size off b hbs hc hd hsz hfit
+  have hcov : ExtentsCover bs es w.size := ⟨hc, by rw [hsize]; omega⟩
+  have hFl := fileBytes_length dev bs es
+  have hZl : (splice (fileBytes dev bs es) size (zeros (off - size))).length = (fileBytes dev bs es).length :=
+    splice_length _ _ _ (by rw [zeros_length, hFl]; omega)
+  refine ⟨w, hw, ?_, ?_, ?_⟩
+  · intro off' n
+    obtain ⟨r, hr, hdata, _⟩ := readE_spec (applyWrs dev (toWrs w.ws)) bs es w.size off' n hbs hcov
+    exact ⟨r, hr, by rw [hdata, hF]⟩
+  · obtain ⟨r, hr, hdata, _⟩ := readE_spec (applyWrs dev (toWrs w.ws)) bs es w.size off b.length hbs hcov
+    refine ⟨r, hr, ?_⟩
+    rw [hdata, hF]
+    exact splice_window _ off b w.size (by rw [hZl, hFl]; exact hfit) (by rw [hsize]; omega)
+  · obtain ⟨r, hr, hdata, _⟩ := readE_spec (applyWrs dev (toWrs w.ws)) bs es w.size size (off - size) hbs hcov
+    refine ⟨r, hr, ?_⟩
+    rw [hdata, hF]
+    by_cases hgap : off > size
+    · rw [splice_window_before _ off b w.size size (off - size) (by rw [hZl, hFl]; omega) (by rw [hsize]; omega) (by omega)]
+      have := splice_window (fileBytes dev bs es) size (zeros (off - size)) off
+        (by rw [zeros_length, hFl]; omega) (by rw [zeros_length]; omega)
+      rw [zeros_length] at this
+      exact this
+    · have hz : off - size = 0 := by omega
+      simp [hz, zeros]
+
 /-- the write loop as found: a 4-byte write that crosses from the first into the second extent of a three-extent
     file goes on to the third extent with an empty write at a negative device offset and fails, although every
     byte had been written (finding ext4-write-trailing-empty-writes); the repaired loop stops in time. -/
@@ -205,6 +307,38 @@ theorem alloc_disjoint (groups : List Alloc.Bits) (n g pos : Nat) (hn : 0 < n)
     (h : Alloc.fastPick groups n = some (g, pos)) :
     ∃ bm, groups[g]? = some bm ∧ pos + n ≤ bm.length ∧ ∀ i, pos ≤ i → i < pos + n → bm[i]? = some false :=
   Alloc.fastPick_spec groups n g pos hn h
+
+/-- alloc_spec: the whole block-allocation policy of allocateExtents — the fast path and, when no single run is
+    large enough, the slow path over the groups' free lists cut into pieces and sorted by size — for EVERY order
+    the (unstable) sort may leave the pieces in, every state of the block bitmaps and every request `n > 0`:
+    every extent handed out lies inside one group's bitmap and consists of bits that were clear, no two extents
+    share a block, together they have exactly `n` blocks (so they are accepted by the accounting machine:
+    `runsOK`); and the policy gives up only when fewer than `n` blocks are free in all groups together, or when
+    more than 65535 blocks are asked for in one call (the code's own limit). -/
+theorem alloc_spec (order : Nat → List (Nat × Nat) → List (Nat × Nat))
+    (horder : ∀ g l, (order g l).Perm l) (s : Alloc.Acc) (n : Nat) (hn : 0 < n) :
+    (∀ rs, Alloc.allocPolicy order (s.groups.map (·.bbm)) n = some rs →
+      (∀ r ∈ rs, ∃ g, s.groups[r.1]? = some g ∧ 0 < r.2.2 ∧ r.2.1 + r.2.2 ≤ g.bbm.length ∧
+        ∀ i, r.2.1 ≤ i → i < r.2.1 + r.2.2 → g.bbm[i]? = some false) ∧
+      rs.Pairwise (fun a c => a.1 ≠ c.1 ∨ a.2.1 + a.2.2 ≤ c.2.1 ∨ c.2.1 + c.2.2 ≤ a.2.1) ∧
+      (rs.map (·.2.2)).sum = n ∧ Alloc.runsOK s rs = true) ∧
+    (Alloc.allocPolicy order (s.groups.map (·.bbm)) n = none →
+      Alloc.maxUint16 < n ∨ Alloc.totalFree (s.groups.map (·.bbm)) < n) := by
+  obtain ⟨h1, h2⟩ := Alloc.allocPolicy_spec order horder s n hn
+  refine ⟨fun rs h => ?_, h2⟩
+  obtain ⟨g1, g2, g3, g4⟩ := h1 rs h
+  refine ⟨fun r hr => ?_, g2, g3, g4⟩
+  obtain ⟨g, hg, hpos, hbits⟩ := g1 r hr
+  refine ⟨g, hg, hpos, ?_, hbits⟩
+  -- the last bit of the extent exists
+  have := hbits (r.2.1 + r.2.2 - 1) (by simp only at hpos ⊢; omega) (by simp only at hpos ⊢; omega)
+  have hlt := (List.getElem?_eq_some_iff.1 this).1
+  simp only at hpos hlt ⊢
+  omega
+
+/-- the order the correspondence runs the model with is one of them -/
+theorem alloc_hintOrder_perm (hint : Nat → List Nat) (g : Nat) (l : List (Nat × Nat)) :
+    (Alloc.hintOrder hint g l).Perm l := Alloc.hintOrder_perm hint g l
 
 /-! ### directory blocks -/
 
@@ -234,6 +368,42 @@ theorem dirpack_length (bs : Nat) (csum : Bool) (tail : Bytes → Bytes) (es : L
     (DirPack.pack bs csum tail es).length % bs = 0 :=
   DirPack.pack_length bs csum tail es hbs ht hes hok
 
+/-- remove_dir_rewrite: Remove's write-back of the parent directory (repaired: blocks the re-packed entries no
+    longer reach become empty directory blocks). For every block size, checksum setting, old directory contents
+    of n blocks and every non-empty list of remaining entries that fits: the directory keeps its length, consists
+    of what Directory.toBytes packs followed by empty blocks, and parseDirEntriesLinear reads back exactly the
+    remaining entries followed by unused (inode 0) ones — so the entries a listing shows are the remaining ones. -/
+theorem remove_dir_rewrite (bs : Nat) (csum : Bool) (tail : Bytes → Bytes) (old : Bytes) (n : Nat)
+    (es : List DirPack.Entry) (hbs : DirPack.BsOK bs) (ht : DirPack.TailOK csum tail) (hes : es ≠ [])
+    (hok : ∀ e ∈ es, DirPack.EntryParseOK e) (hino : ∀ e ∈ es, e.inode ≠ 0)
+    (hold : old.length = n * bs) (hfit : (DirPack.pack bs csum tail es).length ≤ old.length) :
+    (DirPack.rewriteDir true bs csum tail old es).length = old.length ∧
+    ∃ k, DirPack.parse bs csum tail (DirPack.rewriteDir true bs csum tail old es) =
+          some (es ++ List.replicate k DirPack.emp) ∧
+      (es ++ List.replicate k DirPack.emp).filter (fun e => e.inode != 0) = es := by
+  obtain ⟨k, _, hlen, hparse⟩ := DirPack.rewriteDir_spec bs csum tail old n es hbs ht hes hok hold hfit
+  refine ⟨hlen, k, hparse, ?_⟩
+  rw [List.filter_append]
+  have h1 : es.filter (fun e => e.inode != 0) = es :=
+    List.filter_eq_self.2 (fun e he => by simp [hino e he])
+  have h2 : (List.replicate k DirPack.emp).filter (fun e => e.inode != 0) = [] :=
+    List.filter_eq_nil_iff.2 (fun e he => by rw [(List.mem_replicate.1 he).2]; simp [DirPack.emp])
+  rw [h1, h2, List.append_nil]
+
+/-- the write-back as found (32-byte blocks for brevity): a directory of two blocks [a b] [c]; after Remove of b
+    the remaining entries fit one block, the second block keeps its old entry and c is listed twice (finding
+    ext4-remove-stale-dir-block); with the padding the listing is [a c] and an unused entry -/
+theorem cex_ext4_remove_stale_dir_block :
+    let a : DirPack.Entry := ⟨12, [97, 97], 1⟩
+    let b : DirPack.Entry := ⟨13, [98, 98], 1⟩
+    let c : DirPack.Entry := ⟨14, [99, 99], 1⟩
+    let old := DirPack.pack 32 false DirPack.exTail [a, b] ++ DirPack.pack 32 false DirPack.exTail [c]
+    old.length = 64 ∧
+    DirPack.parse 32 false DirPack.exTail (DirPack.rewriteDir false 32 false DirPack.exTail old [a, c]) = some [a, c, c] ∧
+    DirPack.parse 32 false DirPack.exTail (DirPack.rewriteDir true 32 false DirPack.exTail old [a, c]) =
+      some [a, c, DirPack.emp] := by
+  decide
+
 /-- the code as found: a 248-byte name is packed but cannot be parsed back (uint8 wrap of `8+nameLength`) -/
 theorem cex_ext4_long_name :
     DirPack.EntryOK ⟨7, List.replicate 248 65, 1⟩ ∧
@@ -242,11 +412,22 @@ theorem cex_ext4_long_name :
   DirPack.cex_dirent_namelen_wrap
 
 /-! non-vacuity -/
+/-- a fragmented group (free runs of 2, 1 and 3 blocks) and a request for 5 blocks: no run is large enough, the
+    slow path walks the pieces (here in FreeList order, one of the orders covered) -/
+example : Alloc.allocPolicy (fun _ l => l) [[true, false, false, true, false, true, false, false, false]] 5 =
+    some [(0, 1, 2), (0, 4, 1), (0, 6, 2)] := by decide
+example : Alloc.allocPolicy (fun _ l => l) [[true, false, false, true, false, true, false, false, false]] 7 = none := by
+  decide
 example : ExtentsCover 1024 [⟨0, 10, 2⟩, ⟨2, 20, 1⟩] 3000 :=
   ⟨⟨rfl, by decide, rfl, by decide, trivial⟩, by decide⟩
 example : Contig 0 [⟨0, 10, 2⟩, ⟨2, 20, 1⟩] ∧ DiskDisjoint [⟨0, 10, 2⟩, ⟨2, 20, 1⟩] ∧
     3000 ≤ blockCount [⟨0, 10, 2⟩, ⟨2, 20, 1⟩] * 1024 ∧ 2600 + 3 ≤ blockCount [⟨0, 10, 2⟩, ⟨2, 20, 1⟩] * 1024 :=
   ⟨⟨rfl, by decide, rfl, by decide, trivial⟩, by simp [DiskDisjoint], by decide, by decide⟩
+/-- a 2-block hole between two extents and one block behind the last one read as zeros -/
+example : Sorted 0 [⟨0, 3, 1⟩, ⟨3, 7, 1⟩] ∧
+    (readE false (fun i => UInt8.ofNat i) 2 [⟨0, 3, 1⟩, ⟨3, 7, 1⟩] 10 1 20) =
+      .ok ⟨[7, 0, 0, 0, 0, 14, 15, 0, 0], [(7, 1), (14, 2)], 10, true⟩ := by
+  refine ⟨⟨Nat.le_refl _, by decide, by decide, by decide, trivial⟩, by decide⟩
 example : (readE false (fun i => UInt8.ofNat i) 4 [⟨0, 3, 1⟩, ⟨1, 7, 1⟩] 7 2 10) =
     .ok ⟨[14, 15, 28, 29, 30], [(14, 2), (28, 3)], 7, true⟩ := by decide
 
